@@ -93,8 +93,8 @@ CHECKS = {
    design="4 (C15), 3.7"),
  "C19": dict(
    level="model_checking",
-   text="FrpcProxies specifies the health monitor as a machine over probe outcomes (TLC checks WithdrawExactly, WithdrawNotLater, RegisteredAgainAfterSuccess for maxFailed 1..3 over all outcome sequences up to length 10) and the legal phase transitions of a proxy; real health.Monitor instances with scripted per-probe backend states, the real client proxy.Manager under seeded reload sequences (add, remove, change, reorder, duplicate names, identical reloads) with server replies ok / error / none, and the real visitor manager with bind ports taken and freed by the driver are recorded, and TLC validates every probe, status callback, NewProxy / CloseProxy message (incl. not-before-back-off timing), reported phase and listening visitor port against the specification (Trace_FrpcProxies).",
-   note="Trusted: TLC, hook on each probe, the scripted transporter. Timing variables shrunk through verif-only setters; tcp probes only; traffic interruption of unchanged entries is judged by the absence of Close/New messages for them.",
+   text="FrpcProxies specifies the health monitor as a machine over probe outcomes (TLC checks WithdrawExactly, WithdrawNotLater, RegisteredAgainAfterSuccess for maxFailed 1..3 over all outcome sequences up to length 10) and the legal phase transitions of a proxy; real health.Monitor instances (tcp probes with scripted backend states, http probes against backends answering scripted 2xx / 3xx / 4xx / 5xx statuses), the real client proxy.Manager under seeded reload sequences (add, remove, change, reorder, duplicate names, identical reloads) with server replies ok / error / none, and the real visitor manager with bind ports taken and freed by the driver are recorded, and TLC validates every probe, status callback, NewProxy / CloseProxy message (incl. not-before-back-off timing), reported phase and listening visitor port against the specification (Trace_FrpcProxies).",
+   note="Trusted: TLC, hook on each probe, the scripted transporter. Timing variables shrunk through verif-only setters; traffic interruption of unchanged entries is judged by the absence of Close/New messages for them.",
    technique="TLA+ spec FrpcProxies model-checked with TLC + trace validation of real client-side executions (Trace_FrpcProxies)",
    design="4 (C19), 3.8"),
  "C17": dict(
